@@ -52,8 +52,9 @@ impl<'a> Reader<'a> {
         (u16_hi << 8) | u16_lo
     }
 
-    const fn current_ptr(&self) -> *const u8 {
-        unsafe { self.buffer.as_ptr().add(self.off) }
+    /// Returns the bytes that were not consumed so far.
+    fn remaining(&self) -> &'a [u8] {
+        self.buffer.get(self.off..).unwrap_or(&[])
     }
 }
 
@@ -184,10 +185,15 @@ impl FramebufferTag {
                 let palette = {
                     // Ensure the slice can be created without causing UB
                     assert_eq!(mem::size_of::<FramebufferColor>(), 3);
+                    let colors = reader.remaining();
+                    assert!(
+                        num_colors as usize * mem::size_of::<FramebufferColor>() <= colors.len(),
+                        "Embedded color palette should be properly sized and available"
+                    );
 
                     unsafe {
                         slice::from_raw_parts(
-                            reader.current_ptr().cast::<FramebufferColor>(),
+                            colors.as_ptr().cast::<FramebufferColor>(),
                             num_colors as usize,
                         )
                     }
